@@ -276,6 +276,16 @@ fn knobs_for(prop: Prop, sub: u64, tier: Tier, rng: &mut Rng) -> Knobs {
                 k.table.x = 2;
                 k.w_beh_table = 6;
             }
+            if sub % 4 == 1 {
+                // a virtual signal that may fail (Z/X), a caller that keeps going: reads in
+                // later rows must be unaffected
+                k.n_virtual = (1, 1);
+                k.table.z = 2;
+                k.table.x = 1;
+                k.w_beh_table = 6;
+                k.continue_pct = 100;
+                k.w_let = k.w_let.max(4);
+            }
         }
         Prop::C05 => {
             k.w_in_x = 5;
@@ -320,6 +330,7 @@ fn knobs_for(prop: Prop, sub: u64, tier: Tier, rng: &mut Rng) -> Knobs {
             k.n_virtual = (0, 1);
         }
         Prop::C10 => {
+            k.shadow_outputs = true;
             if sub % 2 == 0 {
                 // named
                 k.named_hazard = true;
@@ -386,6 +397,11 @@ fn knobs_for(prop: Prop, sub: u64, tier: Tier, rng: &mut Rng) -> Knobs {
                 k.table.z = 2;
                 k.table.x = 2;
                 k.w_beh_table = 6;
+                // every checked row has its virtual entries, also the ones after a row whose
+                // virtual signal could not be evaluated
+                if rng.chance(2, 3) {
+                    k.continue_pct = 100;
+                }
             }
         }
         Prop::C15 => {
@@ -607,6 +623,7 @@ pub fn reference_for(case: &Case, out: &RunOut, iter_idx: usize) -> RefRun {
         draws: &draws,
         max_steps: case.max_steps,
         virtual_order: &virtual_order,
+        continue_after_error: case.continue_after_error,
     })
 }
 
@@ -840,8 +857,10 @@ pub fn evaluate(prop: Prop, case: &Case) -> Eval {
         }
         Prop::C03 => {
             ev.violation = oracle::c03_attribution(&out, it).or_else(|| {
+                // (a checked row that turns into an error item, or the other way round, also
+                // breaks "the output reported ... whatever order the driver lists its outputs in")
                 trace_violation("C03.attr_ref", &out, case, &r, &|w| {
-                    matches!(w, What::DeviceOutputs)
+                    matches!(w, What::DeviceOutputs | What::ItemClass)
                 })
             });
             let outs: Vec<&str> = case
